@@ -6,6 +6,9 @@
 From Coq Require Import List String ZArith NArith Bool Lia ZifyBool ZifyNat ZifyN.
 From RQ Require Import Lib.GoLib.
 
+(* unfold the helpers the translator added for the listed functions (Hint Unfold ... : gen_aux in coq/Gen) *)
+Ltac aux := autounfold with gen_aux in *.
+
 (* all integer comparisons as ltb / leb *)
 Ltac norm_cmp := rewrite ?Z.gtb_ltb, ?Z.geb_leb in *.
 
@@ -37,4 +40,4 @@ Ltac leaf :=
   try lia; try (exfalso; lia);
   try (f_equal; (reflexivity || congruence || lia)).
 
-Ltac gen_cases := intros; norm_cmp; cbn; repeat (split_one; cbn in *; subst; norm_cmp); leaf.
+Ltac gen_cases := intros; aux; norm_cmp; cbn; repeat (split_one; cbn in *; subst; norm_cmp); leaf.
